@@ -10,11 +10,10 @@ Definition ccase := (schemas * res schemas)%type.
 
 Definition sort_pkgs (ss : schemas) : schemas := isort (leb_by s_pkg) ss.
 
-(* model = implementation, up to the order of the returned packages (which follows the Go map) *)
+(* model = implementation, INCLUDING the order of the returned packages (first appearance) *)
 Definition consolidate_mismatch (c : ccase) : bool :=
-  let model := consolidate_seq (group_by_package (fst c)) in
-  negb (match model, snd c with
-        | Ok a, Ok b => schemas_eqb (sort_pkgs a) (sort_pkgs b)
+  negb (match consolidate (fst c), snd c with
+        | Ok a, Ok b => schemas_eqb a b
         | Ok _, _ | _, Ok _ => false
         | _, _ => true
         end).
